@@ -318,6 +318,11 @@ def step (s : State) (w : List String) : State × String :=
         | true, some bs => ({ s with xp := some { xp with rest := bs, lineZero := true, detached := false } }, "R ok")
         -- the file is gone: the parser keeps the stream it has
         | _, _ => (s, "R refused")
+  | ["x", "expect", f] =>
+    -- the forest the next read from the start of the file has to deliver (spec side only)
+    match parseForest f with
+    | some f => ({ s with xexpect := some f }, "R ok")
+    | none => (s, "bad-op")
   | ["x", "unlink"] =>
     ({ s with xfile := none, xexpect := none, xp := s.xp.map fun xp => { xp with detached := xp.opened } }, "R ok")
   | ["x", "root", f] =>
